@@ -1,111 +1,37 @@
-(** C08 — the value-level panic sites of builder/value.rs: [char::from_u32(code).expect(..)] and
-    [u32::from_str_radix(digits, 16).unwrap()], on C07's model of them ([code_to_char]). *)
+(** C08 — unicode escapes in string values (builder/value.rs decode_string_characters + parser/mod.rs
+    validate_string_values, since /repo a4a3647): an escape that does not denote a Unicode scalar value is a
+    parse error, a surrogate pair of \uXXXX escapes is one character; nothing panics
+    (the general statement is builder_shapes_ok in ProofsShape.v; here the witnesses that used to panic). *)
 From V Require Import Base.Util Gql.Ast Peg.Peg Gen.C07_grammar_gen C07.Builder C07.Model C08.Model C08.Spec.
 Local Open Scope N_scope.
 
-Definition is_hex (c : N) : bool := match hex_digit c with Some _ => true | None => false end.
-Definition digit_of (c : N) : N := match hex_digit c with Some d => d | None => 0 end.
-
-(** the number a digit string denotes, without any width limit *)
-Definition hexval_from (l : str) (acc : N) : N := fold_left (fun a c => a * 16 + digit_of c) l acc.
-Definition hexval (l : str) : N := hexval_from l 0.
-
-Lemma hexval_from_ge : forall l acc, acc <= hexval_from l acc.
-Proof.
-  induction l as [|c r IH]; intros acc; cbn [hexval_from fold_left]; [lia|].
-  etransitivity; [|apply IH]. lia.
-Qed.
-
-Lemma hexval_from_cons c r acc : hexval_from (c :: r) acc = hexval_from r (acc * 16 + digit_of c).
-Proof. reflexivity. Qed.
-
-Lemma hex_acc_spec : forall l acc, forallb is_hex l = true -> acc < 4294967296 ->
-  hex_acc l acc = if hexval_from l acc <? 4294967296 then Some (hexval_from l acc) else None.
-Proof.
-  induction l as [|c r IH]; intros acc H Hacc.
-  - cbn [hex_acc]. unfold hexval_from. cbn [fold_left].
-    destruct (acc <? 4294967296) eqn:E; [reflexivity|apply N.ltb_ge in E; lia].
-  - cbn [forallb] in H. apply andb_true_iff in H. destruct H as [Hc Hr].
-    rewrite hexval_from_cons. cbn [hex_acc].
-    unfold is_hex in Hc. unfold digit_of. destruct (hex_digit c) as [d|] eqn:Ed; [|discriminate].
-    destruct (acc * 16 + d <? 4294967296) eqn:Ev.
-    + apply IH; [exact Hr|apply N.ltb_lt in Ev; exact Ev].
-    + pose proof (hexval_from_ge r (acc * 16 + d)) as Hge. apply N.ltb_ge in Ev.
-      destruct (hexval_from r (acc * 16 + d) <? 4294967296) eqn:E2; [apply N.ltb_lt in E2; lia|reflexivity].
-Qed.
-
-(** u32::from_str_radix on a non-empty string of hex digits: Ok(value) iff the value fits 32 bits *)
-Lemma u32_from_hex_spec ds : ds <> [] -> forallb is_hex ds = true ->
-  u32_from_hex ds = if hexval ds <? 4294967296 then Some (hexval ds) else None.
-Proof.
-  intros Hne Hh. unfold u32_from_hex, hexval. destruct ds as [|c r]; [congruence|].
-  apply hex_acc_spec; [exact Hh|lia].
-Qed.
-
-(** escapes that denote a Unicode scalar value are decoded to it *)
-Theorem escape_total_partial : forall ds,
-  ds <> [] -> forallb is_hex ds = true -> is_scalar_value (hexval ds) = true ->
-  code_to_char ds = BOk (hexval ds).
-Proof.
-  intros ds Hne Hh Hs. unfold code_to_char. rewrite (u32_from_hex_spec ds Hne Hh).
-  unfold is_scalar_value in Hs.
-  assert (Hlt : hexval ds < 1114112).
-  { apply orb_true_iff in Hs. destruct Hs as [H|H]; [apply N.ltb_lt in H; lia|].
-    apply andb_true_iff in H. destruct H as [_ H]. apply N.ltb_lt in H. exact H. }
-  destruct (hexval ds <? 4294967296) eqn:E; [|apply N.ltb_ge in E; lia].
-  unfold char_from_u32.
-  destruct (hexval ds <? 55296) eqn:E1; [reflexivity|].
-  cbn [orb] in Hs. apply andb_true_iff in Hs. destruct Hs as [H2 H3].
-  destruct (hexval ds <? 57344) eqn:E2; [apply N.ltb_lt in E2; apply N.leb_le in H2; lia|].
-  rewrite H3. reflexivity.
-Qed.
-
-(** ... and every other escape the grammar admits panics: exactly which panic, for which values *)
-Theorem escape_panic_iff : forall ds k,
-  ds <> [] -> forallb is_hex ds = true ->
-  (code_to_char ds = BPanic k <->
-   (k = P_radix /\ 4294967296 <= hexval ds) \/
-   (k = P_char /\ hexval ds < 4294967296 /\ is_scalar_value (hexval ds) = false)).
-Proof.
-  intros ds k Hne Hh. unfold code_to_char. rewrite (u32_from_hex_spec ds Hne Hh).
-  destruct (hexval ds <? 4294967296) eqn:E.
-  - apply N.ltb_lt in E. unfold char_from_u32, is_scalar_value.
-    destruct (hexval ds <? 55296) eqn:E1; cbn [orb].
-    + split; [discriminate|]. intros [[_ H]|[_ [_ H]]]; [lia|discriminate].
-    + destruct (hexval ds <? 57344) eqn:E2.
-      * assert (E3 : 57344 <=? hexval ds = false) by (apply N.leb_gt; apply N.ltb_lt in E2; exact E2).
-        rewrite E3. cbn [andb]. split.
-        -- intros H. inversion H. right. repeat split; auto.
-        -- intros [[-> H]|[-> _]]; [lia|reflexivity].
-      * assert (E3 : 57344 <=? hexval ds = true) by (apply N.leb_le; apply N.ltb_ge in E2; exact E2).
-        rewrite E3. cbn [andb]. destruct (hexval ds <? 1114112) eqn:E4.
-        -- split; [discriminate|]. intros [[_ H]|[_ [_ H]]]; [lia|discriminate].
-        -- split.
-           ++ intros H. inversion H. right. repeat split; auto.
-           ++ intros [[-> H]|[-> _]]; [lia|reflexivity].
-  - apply N.ltb_ge in E. split.
-    + intros H. inversion H. left. split; [reflexivity|exact E].
-    + intros [[-> _]|[_ [H _]]]; [reflexivity|lia].
-Qed.
-
-(** witnesses on whole documents, through the parser model: the escapes the property text names *)
 Definition w_lone_surrogate : str := s "{ a(s: ""\uD800"") }".
+Definition w_trailing_first : str := s "{ a(s: ""\uDC00\uD800"") }".
 Definition w_above_max : str := s "{ a(s: ""\u{110000}"") }".
 Definition w_overflow : str := s "{ a(s: ""\u{100000000}"") }".
 Definition w_long_but_small : str := s "{ a(s: ""\u{0000000041}"") }".
+Definition w_surrogate_pair : str := s "{ a(s: ""\uD83D\uDE00"") }".
 Definition w_description : str := s """\uDFFF"" type Query { a: Int }".
 
-Lemma escape_total_refuted :
-  parse_class false w_lone_surrogate = 10 + P_char /\
-  parse_class false w_above_max = 10 + P_char /\
-  parse_class false w_overflow = 10 + P_radix /\
-  parse_class true w_description = 10 + P_char.
+(** the former panic witnesses are parse errors now (outcome class 1 = Err(ParseError)) *)
+Lemma escape_errors_are_diagnostics :
+  parse_class false w_lone_surrogate = 1 /\
+  parse_class false w_trailing_first = 1 /\
+  parse_class false w_above_max = 1 /\
+  parse_class false w_overflow = 1 /\
+  parse_class true w_description = 1.
 Proof. repeat split; vm_compute; reflexivity. Qed.
 
-(** more than eight hex digits are fine as long as the value is small: the digit count is not the cause *)
-Example escape_many_digits_ok : parse_class false w_long_but_small = 0.
-Proof. vm_compute. reflexivity. Qed.
+(** ... and what denotes a character parses: many digits with a small value, a surrogate pair *)
+Lemma escape_characters_parse :
+  parse_class false w_long_but_small = 0 /\ parse_class false w_surrogate_pair = 0.
+Proof. split; vm_compute; reflexivity. Qed.
 
-Example escape_total_partial_example :
-  code_to_char (s "1F600") = BOk 128512 /\ is_scalar_value (hexval (s "1F600")) = true.
-Proof. split; reflexivity. Qed.
+(** the u32 subtractions of the surrogate-pair arithmetic ([leading - 0xd800], [trailing - 0xdc00]) are taken
+    under the range tests on the same values *)
+Lemma surrogate_sub_ok c :
+  (is_leading_surrogate c = true -> 55296 <= c) /\ (is_trailing_surrogate c = true -> 56320 <= c).
+Proof.
+  unfold is_leading_surrogate, is_trailing_surrogate. split; intros H; apply andb_true_iff in H; destruct H as [H _];
+    apply N.leb_le in H; exact H.
+Qed.
